@@ -174,7 +174,7 @@ class StringRewriter(object):
                 raise ExtractionError('rewrite does not terminate on: ' + s)
             changed = False
             # member calls  X.method(args)
-            for m in re.finditer(r'\b([A-Za-z_]\w*)\s*\.\s*(length|size|substr|find|reserve|str|c_str|empty)\s*\(', s):
+            for m in re.finditer(r'\b([A-Za-z_]\w*)\s*\.\s*(length|size|substr|find|rfind|compare|at|back|front|find_first_of|reserve|str|c_str|empty)\s*\(', s):
                 var, meth = m.group(1), m.group(2)
                 if var not in self.sv and var not in self.streams:
                     continue
@@ -201,6 +201,29 @@ class StringRewriter(object):
                         rep = 'vstr_find(&%s, &%s, %s)' % (var, a0, pos)
                     else:
                         raise ExtractionError('find() argument not supported: ' + a0)
+                elif meth == 'rfind' and len(args) in (1, 2):
+                    pos = args[1] if len(args) == 2 else 'VSTR_NPOS'
+                    a0 = args[0]
+                    if re.match(r'^"(\\.|[^"\\])"$', a0):
+                        rep = "vstr_rfind_c(&%s, '%s', %s)" % (var, a0[1:-1], pos)
+                    elif re.match(r"^'(\\.|[^'\\])'$", a0):
+                        rep = 'vstr_rfind_c(&%s, %s, %s)' % (var, a0, pos)
+                    elif a0 in self.sv:
+                        rep = 'vstr_rfind(&%s, &%s, %s)' % (var, a0, pos)
+                    else:
+                        raise ExtractionError('rfind() argument not supported: ' + a0)
+                elif meth == 'compare' and len(args) == 1 and args[0] in self.sv:
+                    rep = 'vstr_compare(&%s, &%s)' % (var, args[0])
+                elif meth == 'compare' and len(args) == 3 and args[2] in self.sv:
+                    rep = 'vstr_compare3(&%s, %s, %s, &%s)' % (var, args[0], args[1], args[2])
+                elif meth == 'at' and len(args) == 1:
+                    rep = 'vstr_at_checked(&%s, %s)' % (var, args[0])
+                elif meth == 'back' and not args:
+                    rep = 'vstr_back(&%s)' % var
+                elif meth == 'front' and not args:
+                    rep = 'vstr_front(&%s)' % var
+                elif meth == 'find_first_of' and len(args) in (1, 2) and re.match(r'^"(\\.|[^"\\])*"$', args[0]):
+                    rep = 'vstr_find_first_of(&%s, %s, %s)' % (var, args[0], args[1] if len(args) == 2 else '0')
                 elif meth == 'reserve':
                     rep = '((void)0)'
                 elif meth == 'str' and not args and var in self.streams:
